@@ -131,9 +131,9 @@ Proof.
 Qed.
 
 (* strict first loop *)
-Lemma ex_entry_strict : forall e, ex 2 2 (entry_prog false e).
+Lemma ex_entry_strict : forall ro e, ex 2 2 (entry_prog false ro e).
 Proof.
-  intro e. destruct e as [| |o]; simpl.
+  intros ro e. destruct e as [| |o]; simpl.
   - apply (ex_weaken 1 1); [exact ex_poll|lia|lia].
   - apply (ex_weaken 1 1); [exact ex_poll|lia|lia].
   - apply (ex_weaken (N.max 1 2) (N.max 1 (N.max 2 2))); [|lia|lia].
@@ -141,39 +141,40 @@ Proof.
 Qed.
 
 (* relaxed first loop: every entry program is guarded, lc <= 1, lb <= 2 *)
-Lemma swallow_entry_facts : forall p q, ex 2 2 p -> guard p = true -> ex 1 1 q ->
-  guard (Seq Poll (Try p Skip q)) = true /\ lc (Seq Poll (Try p Skip q)) <= 1
-  /\ lb (Seq Poll (Try p Skip q)) <= 2.
+Lemma swallow_entry_facts : forall p q (ro : bool), ex 2 2 p -> guard p = true -> ex 1 1 q ->
+  let e := Seq Poll (Try p (if ro then Try p Skip q else Skip) q) in
+  guard e = true /\ lc e <= 1 /\ lb e <= 4.
 Proof.
-  intros p q [Ht Hc Hb _] Hg [Ht' Hc' Hb' _]. simpl. rewrite Ht, Hg.
-  split; [reflexivity|split; lia].
+  intros p q ro [Ht Hc Hb _] Hg [Ht' Hc' Hb' _]. destruct ro; simpl; rewrite Ht, Hg;
+    (split; [reflexivity|split; lia]).
 Qed.
 
-Lemma entry_relaxed_facts : forall e,
-  guard (entry_prog true e) = true /\ lc (entry_prog true e) <= 1 /\ lb (entry_prog true e) <= 2.
+Lemma entry_relaxed_facts : forall ro e,
+  guard (entry_prog true ro e) = true /\ lc (entry_prog true ro e) <= 1
+  /\ lb (entry_prog true ro e) <= 4.
 Proof.
-  intro e. destruct e as [| |o].
+  intros ro e. destruct e as [| |o].
   - simpl. split; [reflexivity|split; lia].
   - simpl. split; [reflexivity|split; lia].
   - apply swallow_entry_facts; [apply ex_parse_obj|apply guard_parse_obj|apply ex_pollsN].
 Qed.
 
-Lemma loop1_relaxed_facts : forall es,
-  lc (seqs (map (entry_prog true) es)) <= 1 /\ lb (seqs (map (entry_prog true) es)) <= 3.
+Lemma loop1_relaxed_facts : forall ro es,
+  lc (seqs (map (entry_prog true ro) es)) <= 1 /\ lb (seqs (map (entry_prog true ro) es)) <= 5.
 Proof.
-  induction es as [|e es IH].
+  intro ro. induction es as [|e es IH].
   - simpl. lia.
-  - destruct IH as [IHc IHb]. destruct (entry_relaxed_facts e) as [Hg [Hc Hb]].
-    change (seqs (map (entry_prog true) (e :: es)))
-      with (Seq (entry_prog true e) (seqs (map (entry_prog true) es))).
-    remember (entry_prog true e) as p. remember (seqs (map (entry_prog true) es)) as rest.
+  - destruct IH as [IHc IHb]. destruct (entry_relaxed_facts ro e) as [Hg [Hc Hb]].
+    change (seqs (map (entry_prog true ro) (e :: es)))
+      with (Seq (entry_prog true ro e) (seqs (map (entry_prog true ro) es))).
+    remember (entry_prog true ro e) as p. remember (seqs (map (entry_prog true ro) es)) as rest.
     simpl. rewrite Hg. destruct (tight p); lia.
 Qed.
 
-Lemma loop1_tight_or_loop2_guard : forall es,
-  tight (seqs (map (entry_prog true) es)) = true \/ guard (seqs (map entry_poll2 es)) = true.
+Lemma loop1_tight_or_loop2_guard : forall ro es,
+  tight (seqs (map (entry_prog true ro) es)) = true \/ guard (seqs (map entry_poll2 es)) = true.
 Proof.
-  induction es as [|e es IH].
+  intro ro. induction es as [|e es IH].
   - left. reflexivity.
   - destruct e as [| |o].
     + destruct IH as [IH|IH].
@@ -183,55 +184,55 @@ Proof.
     + right. reflexivity.
 Qed.
 
-Lemma guard_loop1 : forall rx e es, guard (seqs (map (entry_prog rx) (e :: es))) = true.
-Proof. intros rx e es. destruct e; destruct rx; reflexivity. Qed.
+Lemma guard_loop1 : forall rx ro e es, guard (seqs (map (entry_prog rx ro) (e :: es))) = true.
+Proof. intros rx ro e es. destruct e; destruct rx; reflexivity. Qed.
 
-Lemma ex_deref : forall rx es, ex 2 4 (deref rx es).
+Lemma ex_deref : forall rx ro es, ex 2 6 (deref rx ro es).
 Proof.
-  intros rx es. unfold deref. destruct rx.
+  intros rx ro es. unfold deref. destruct rx.
   - destruct (ex_loop2 es) as [Ht2 Hc2 Hb2 Hg2].
-    destruct (loop1_relaxed_facts es) as [Hc1 Hb1].
-    remember (seqs (map (entry_prog true) es)) as l1 eqn:E1.
+    destruct (loop1_relaxed_facts ro es) as [Hc1 Hb1].
+    remember (seqs (map (entry_prog true ro) es)) as l1 eqn:E1.
     remember (seqs (map entry_poll2 es)) as l2 eqn:E2.
     constructor; simpl.
     + rewrite Ht2. simpl.
-      destruct (loop1_tight_or_loop2_guard es) as [H|H]; rewrite <- ?E1, <- ?E2 in H; rewrite H.
+      destruct (loop1_tight_or_loop2_guard ro es) as [H|H]; rewrite <- ?E1, <- ?E2 in H; rewrite H.
       * reflexivity.
       * apply orb_true_r.
     + destruct (guard l1); lia.
     + destruct (tight l1); lia.
     + destruct es as [|e es].
       * right. subst l1 l2. reflexivity.
-      * left. pose proof (guard_loop1 true e es) as Hg1. rewrite <- E1 in Hg1. rewrite Hg1. reflexivity.
+      * left. pose proof (guard_loop1 true ro e es) as Hg1. rewrite <- E1 in Hg1. rewrite Hg1. reflexivity.
   - apply (ex_weaken (N.max 2 1) (N.max 2 (N.max 1 1))); [|lia|lia].
     apply ex_seq; [|apply ex_loop2].
     apply ex_seqs; [lia|]. intros p Hp. apply in_map_iff in Hp.
     destruct Hp as [e [He _]]. subst p. apply ex_entry_strict.
 Qed.
 
-Lemma guard_deref : forall rx e es, guard (deref rx (e :: es)) = true.
+Lemma guard_deref : forall rx ro e es, guard (deref rx ro (e :: es)) = true.
 Proof.
-  intros rx e es. unfold deref. pose proof (guard_loop1 rx e es) as H.
-  remember (seqs (map (entry_prog rx) (e :: es))) as l1. simpl. rewrite H. reflexivity.
+  intros rx ro e es. unfold deref. pose proof (guard_loop1 rx ro e es) as H.
+  remember (seqs (map (entry_prog rx ro) (e :: es))) as l1. simpl. rewrite H. reflexivity.
 Qed.
 
 Definition tail_prog (s : shape) : prog :=
-  Seq (pollsN (s_enc s)) (Seq (seqs (map ostream_prog (s_ostreams s))) (deref (s_relaxed s) (s_entries s))).
+  Seq (pollsN (s_enc s)) (Seq (seqs (map ostream_prog (s_ostreams s))) (deref (s_relaxed s) (s_repoff s) (s_entries s))).
 
-Lemma ex_tail : forall s, ex 2 4 (tail_prog s).
+Lemma ex_tail : forall s, ex 2 6 (tail_prog s).
 Proof.
   intro s. unfold tail_prog.
-  apply (ex_weaken (N.max 1 2) (N.max 1 (N.max 4 2))); [|lia|lia].
+  apply (ex_weaken (N.max 1 2) (N.max 1 (N.max 6 2))); [|lia|lia].
   apply ex_seq; [apply ex_pollsN|].
-  apply (ex_weaken (N.max 2 2) (N.max 2 (N.max 4 2))); [|lia|lia].
+  apply (ex_weaken (N.max 2 2) (N.max 2 (N.max 6 2))); [|lia|lia].
   apply ex_seq; [apply ex_ostreams|apply ex_deref].
 Qed.
 
 Lemma guard_tail : forall s, s_entries s <> [] -> guard (tail_prog s) = true.
 Proof.
   intros s Hne. unfold tail_prog. destruct (s_entries s) as [|e es]; [congruence|].
-  pose proof (guard_deref (s_relaxed s) e es) as H.
-  remember (deref (s_relaxed s) (e :: es)) as d. simpl. rewrite H. rewrite !orb_true_r. reflexivity.
+  pose proof (guard_deref (s_relaxed s) (s_repoff s) e es) as H.
+  remember (deref (s_relaxed s) (s_repoff s) (e :: es)) as d. simpl. rewrite H. rewrite !orb_true_r. reflexivity.
 Qed.
 
 Lemma read_prog_eq : forall s,
@@ -339,11 +340,14 @@ Proof.
     apply ff_seq; [apply failfree_pal|apply failfree_pollsN].
   - apply failfree_seqs. intros p Hp. apply in_map_iff in Hp. destruct Hp as [e [He _]]. subst p.
     destruct e as [| |o]; try reflexivity. unfold entry_prog.
+    assert (Hpo : failfree (parse_obj o) = true).
+    { unfold parse_obj, buffer_polls. apply ff_seq.
+      - apply ff_seq; [reflexivity|apply failfree_pollsN].
+      - apply ff_retry; apply failfree_pollsN. }
     apply ff_seq; [reflexivity|]. destruct (s_relaxed s).
-    + apply ff_try; [|reflexivity|apply failfree_pollsN].
-      unfold parse_obj, buffer_polls. apply ff_seq.
-      * apply ff_seq; [reflexivity|apply failfree_pollsN].
-      * apply ff_retry; apply failfree_pollsN.
+    + apply ff_try; [exact Hpo| |apply failfree_pollsN].
+      destruct (s_repoff s); [|reflexivity].
+      apply ff_try; [exact Hpo|reflexivity|apply failfree_pollsN].
     + apply failfree_pal.
   - apply failfree_seqs. intros p Hp. apply in_map_iff in Hp. destruct Hp as [e [He _]]. subst p.
     destruct e; reflexivity.
@@ -423,7 +427,7 @@ Proof.
 Qed.
 
 Definition bad_shape (n : nat) : shape :=
-  mkshape true false [SStream o1] (repeat (FObj o1) n) 0 [] [EFree].
+  mkshape true false false [SStream o1] (repeat (FObj o1) n) 0 [] [EFree].
 
 Lemma run_Seq : forall poll p q s, run poll (Seq p q) s =
   let (o, s1) := run poll p s in if is_done o then run poll q s1 else (o, s1).
